@@ -219,6 +219,18 @@ def prove_real(ring, hyps, goal, meta, facts, timeout_s=30.0, seed=0):
     if r == "unsat":
         return Verdict("proved", "smt-z3", time.time() - t0)
     if r == "sat":
+        # angles are not polynomial symbols: recover them from the values of their (cos, sin) generator pair
+        try:
+            import math as _math
+
+            for k, m in (meta or {}).items():
+                if m.get("kind") == "sin" and isinstance(m.get("arg"), str):
+                    sv = model.get(ring.names[k])
+                    cv = model.get(ring.names[m["cos"]])
+                    if sv is not None and cv is not None:
+                        model[m["arg"]] = Fraction(_math.atan2(float(sv), float(cv))).limit_denominator(10 ** 9)
+        except Exception:
+            pass
         return Verdict("refuted", "smt-z3", time.time() - t0, model=model, detail="exact" if exact else "approx")
     # z3 unknown -> cvc5
     try:
